@@ -1232,6 +1232,8 @@ class tensor:
         array([[ 0.4045...,  0.9145...],
                [ 0.9145..., -0.4045...]])
         """
+        if n not in range(self.ndims) or not 0 < r <= self.shape[n]:
+            assert False, "n must be a mode and r between 1 and the extent of mode n"
         Xn = self.to_tenmat(rdims=np.array([n])).double()
         y = Xn @ Xn.T
 
